@@ -81,6 +81,28 @@ def stepCore (st : DriverState) (fields : List String) : DriverState × String :
               (st, s!"ok\t{bitsStr f.1}\t{o}\t{bitsStr (applyFactor f x)}")
       else (st, "bad-op")
     | _, _, _, _, _, _ => (st, "bad-op")
+  -- C02/C12/C14: look-up histories against a fresh registry table (write-back of derived entries)
+  | ["reg.fresh"] => ({ st with luts := st.luts.push (defaultLut Float) }, s!"ok\t{st.luts.size}")
+  | ["lookup", r, name] =>
+    match r.toNat? with
+    | some ri =>
+      if h : ri < st.luts.size then
+        match lookupUnitSymbol st.pre st.luts[ri] name with
+        | .ok (e, t') =>
+          ({ st with luts := st.luts.set ri t' },
+           s!"ok\t{bitsStr e.scale}\t{bitsStr e.offset}\t{e.dim.str}\t{if e.prefixable then 1 else 0}")
+        | .error e => (st, s!"err\t{e.str}")
+      else (st, "bad-op")
+    | none => (st, "bad-op")
+  | ["dump.reglut", r, k] =>
+    match r.toNat? with
+    | some ri =>
+      if h : ri < st.luts.size then
+        match (st.luts[ri]).find? k with
+        | some e => (st, s!"ok\t{bitsStr e.scale}\t{bitsStr e.offset}\t{e.dim.str}\t{if e.prefixable then 1 else 0}")
+        | none => (st, "none")
+      else (st, "bad-op")
+    | none => (st, "bad-op")
   | _ => (st, "bad-op")
 
 
